@@ -203,4 +203,24 @@ theorem unpackTs_packTs (norm : Nat → Str → Str) (k : Kind) (xs : List TVal)
         simp [rvOfList, unpackTs, unpackT_packT norm k x a hx h1, unpackTs_packTs norm k xs r hxs h2]
 end
 
+/-- a typed list that received plain elements in place packs to exactly what the list of the converted elements
+    packs to (given that the source converts before packing: the regenerated flag) -/
+theorem packHeld_eq {R : Type} (conv : R → Option TVal) (k : Kind) (hgen : Gen.typedlistPackConvertsRaw = true) :
+    ∀ (xs : List (TVal ⊕ R)) (ts : List TVal), heldValues conv xs = some ts → packHeld conv k xs = packTs k ts
+  | [], ts, h => by simp [heldValues] at h; subst h; simp [packHeld, packTs]
+  | .inl t :: xs, ts, h => by
+    simp only [heldValues, Option.map_eq_some_iff] at h
+    obtain ⟨ts', h1, rfl⟩ := h
+    simp only [packHeld, packTs, packHeld_eq conv k hgen xs ts' h1]
+  | .inr r :: xs, ts, h => by
+    simp only [heldValues] at h
+    cases hc : conv r with
+    | none => simp [hc] at h
+    | some t =>
+      cases hv : heldValues conv xs with
+      | none => simp [hc, hv] at h
+      | some ts' =>
+        simp [hc, hv] at h; subst h
+        simp only [packHeld, hgen, if_true, hc, Option.bind_some, packTs, packHeld_eq conv k hgen xs ts' hv]
+
 end FlowRecord.FieldPack
